@@ -143,6 +143,28 @@ func exprsStream(r *Run) {
 		}
 	}
 
+	// ---- 2b. a string-keyed map has no entry for an integer: m[65] is a missing key, not the entry "A"
+	// (Go's int -> string conversion makes a one-rune string) ----
+	{
+		env := map[string]*V{"m": VStrMap(SKV("A", VStr("va")), SKV("b", VStr("vb")), SKV("é", VStr("ve"))),
+			"tm": VMap(TStr, TStr, SKV("A", VStr("va"))), "k": VKeyed(Field{"A", VStr("va")}),
+			"i": i(65), "i8": VInt(1, 65), "u": VInt(5, 98), "i64": VInt(4, 233)}
+		for _, src := range []string{"[{{ m[65] }}]", "[{{ m[98] }}]", "[{{ m[233] }}]", "[{{ m[i] }}]", "[{{ m[i8] }}]", "[{{ m[u] }}]", "[{{ m[i64] }}]",
+			"[{{ tm[65] }}]", "[{{ tm[i] }}]", "[{{ k[65] }}]", "[{{ k[i] }}]", "{% if m[65] %}T{% else %}F{% endif %}"} {
+			if !r.Mine() {
+				continue
+			}
+			want := "[]"
+			if strings.HasPrefix(src, "{%") {
+				want = "F"
+			}
+			res := run(engineCfg{}, src, env, "int-index-of-string-map")
+			if out, ok := okOut(res); !ok || out != want {
+				r.Violate("C08", "missing-key-is-nil", renderCaseLine(engineCfg{}, "", 0, src, env), fmt.Sprintf("want %s got %s", want, res))
+			}
+		}
+	}
+
 	// ---- 3. strict variables: only an object's FINAL value ----
 	if r.Mine() {
 		env := map[string]*V{"x": VStr("v")}
